@@ -33,11 +33,24 @@ TECHNIQUE = "deterministic simulation with open/close accounting in the fake net
 N_RANDOM = {"quick": 30_000, "thorough": 3_000_000}
 
 
+FIN_RACE = [(r, gap, k) for r in (0, 1, 3) for gap in (0.0, EPS, DEFAULT_LATENCY) for k in (1, 2, 3)]
+
+
 def n_cases(tier):
-    return N_RANDOM[tier]
+    return N_RANDOM[tier] + len(FIN_RACE)
 
 
 def make_case(tier, seed, index):
+    if index >= N_RANDOM[tier]:
+        # a peer that closes the kept-alive TCP connection right after every answer, and a client that issues its
+        # next request without a pause: the connection is 'dropped' when the next request starts
+        r, gap, k = FIN_RACE[index - N_RANDOM[tier]]
+        steps = []
+        for j in range(k):
+            steps.append({"op": "req", "faults": [{"k": "ok", "d": DEFAULT_LATENCY, "then": [{"ev": "fin", "d": DEFAULT_LATENCY + gap}]}],
+                          "connects": []})
+        steps.append({"op": "req", "faults": [], "connects": [], "final": True, "nodrain": True})
+        return {"transport": "tcp", "keep_alive": True, "timeout": 0.5, "retries": r, "steps": steps, "fin_race": True}
     rnd = C.rng_for(seed, ID, index)
     tr = rnd.choice(["udp", "tcp"])
     tau = rnd.choice([0.25, 0.5, 1.0])
@@ -148,7 +161,7 @@ def run_case(case):
                         and not getattr(held, "lost_called", True):
                     dead.append((i, held.tid))
             else:
-                if s.get("final") or case.get("loops") == "alt":
+                if (s.get("final") and not s.get("nodrain")) or case.get("loops") == "alt":
                     # 'once faults stop': let every network event still in flight (late answers, resets, ICMP
                     # errors scheduled by earlier fault scripts) arrive before the fault-free request starts
                     await asyncio.sleep(EPS)  # events already popped from the net but still in the ready queue
@@ -239,6 +252,12 @@ def run_case(case):
                                        f"two open event loops used alternately: request at step {i} "
                                        f"({len(s['faults'])} transmissions lost, retries={r}) ended {rec['outcome']} after "
                                        f"{len(txs)} transmission(s)"))
+            elif s.get("final") and status == "ok" and case.get("fin_race"):
+                if rec["outcome"] != "result":
+                    violations.append(viol(f"C10:not-recovered:tcp:fin-right-after-answer:retries={r}",
+                                           f"the peer closes the connection right after each answer; the request issued "
+                                           f"straight after the previous answer ended {rec['outcome']} after {len(txs)} "
+                                           f"transmission(s) instead of reconnecting (retries={r})"))
             elif s.get("final") and status == "ok":
                 if rec["outcome"] != "result":
                     violations.append(viol(f"C10:not-recovered:{tr}",
